@@ -8,9 +8,11 @@ Protocol (one answer per line):
   begin <dev|release>                      reset                          -> ok
   slot <id> i <int> | f <hex16> | s <hex>  value-store slot (ids ascending) -> ok
   node <id> <Kind> <fields…>               stored node                    -> ok
+  nancfg <LLLLL> <6 x hex16>               host NaN conventions (calibrated by the harness) -> ok
   dev <hexmem> <roLo> <roHi>               device image                   -> ok
-  op <name> <node> [arg]                   interface call                 -> ok … | err V | panic
-  end                                      digest of device image + log
+  op <name> <node> [arg]                   interface call    -> ok … | err V | panic, then
+                                           ` L<log length>:<running log digest> M<image digest>`
+  end                                      whole device image + log digest
 -/
 import CamVerif.Model.GenApi
 import CamVerif.Spec.GenApiSem
@@ -22,13 +24,110 @@ import Driver.Util
 namespace Driver.GenApi
 open CamVerif CamVerif.GenApi CamVerif.Wire Driver Driver.C05
 
-/-! `Formula.FloatOps Float` comes from `Driver/C05Float.lean` (C05). -/
+/-! ### Floats are carried as raw IEEE-754 bit patterns
 
-instance : Reg.FloatOps Float where
-  toBits x := BitVec.ofNat 64 x.toBits.toNat
-  ofBits b := Float.ofBits (UInt64.ofNat b.toNat)
-  narrowBits32 x := BitVec.ofNat 32 x.toFloat32.toBits.toNat
-  widenBits32 b := (Float32.ofBits (UInt32.ofNat b.toNat)).toFloat
+Lean's `Float.toBits` canonicalises NaNs while Rust's `to_bits` / `to_le_bytes` do not, so a
+NaN read from a register and written to another one (or produced by formula arithmetic
+and written to a register) must keep its payload.  Non-NaN arithmetic goes through Lean's
+`Float` (the host FPU, bit exact); NaN results follow the x86-64 SSE2 rules: an operation
+with a NaN operand returns that operand quieted; an invalid operation returns a default
+NaN.  Two facts depend on the compiled code rather than on IEEE-754 and are calibrated by
+the harness from the real implementation at start-up (`nancfg` line): which operand wins
+when both are NaNs (the compiler may commute), and the bit pattern of the default NaN of
+each operation. -/
+
+structure FB where
+  bits : UInt64
+  deriving Inhabited
+
+structure NanCfg where
+  /-- both operands NaN: the left one wins (per operator + - * / %) -/
+  lhsAdd : Bool := true
+  lhsSub : Bool := true
+  lhsMul : Bool := true
+  lhsDiv : Bool := true
+  lhsRem : Bool := true
+  /-- default NaN of an invalid operation (per operator, and for SQRT) -/
+  invAdd : UInt64 := 0xfff8000000000000
+  invSub : UInt64 := 0xfff8000000000000
+  invMul : UInt64 := 0xfff8000000000000
+  invDiv : UInt64 := 0xfff8000000000000
+  invRem : UInt64 := 0xfff8000000000000
+  invSqrt : UInt64 := 0xfff8000000000000
+  deriving Inhabited
+
+namespace FB
+def fl (a : FB) : Float := Float.ofBits a.bits
+def isNaN (a : FB) : Bool := (a.bits.toNat / 2 ^ 52) % 2 ^ 11 == 2047 && a.bits.toNat % 2 ^ 52 != 0
+def quiet (a : FB) : FB := ⟨a.bits ||| 0x0008000000000000⟩
+/-- bits of a `Float` known not to be NaN -/
+def ofFloat (x : Float) (inv : UInt64) : FB := if x.isNaN then ⟨inv⟩ else ⟨x.toBits⟩
+
+def bin (lhsWins : Bool) (inv : UInt64) (f : Float → Float → Float) (a b : FB) : FB :=
+  if a.isNaN && b.isNaN then (if lhsWins then a.quiet else b.quiet)
+  else if a.isNaN then a.quiet
+  else if b.isNaN then b.quiet
+  else ofFloat (f a.fl b.fl) inv
+
+def un (inv : UInt64) (f : Float → Float) (a : FB) : FB :=
+  if a.isNaN then a.quiet else ofFloat (f a.fl) inv
+end FB
+
+def F0 : Formula.FloatOps Float := inferInstance
+
+def fbInst (c : NanCfg) : Formula.FloatOps FB where
+  add := FB.bin c.lhsAdd c.invAdd F0.add
+  sub := FB.bin c.lhsSub c.invSub F0.sub
+  mul := FB.bin c.lhsMul c.invMul F0.mul
+  div := FB.bin c.lhsDiv c.invDiv F0.div
+  rem := FB.bin c.lhsRem c.invRem F0.rem
+  powf := FB.bin true 0xfff8000000000000 F0.powf
+  ofInt i := ⟨(F0.ofInt i).toBits⟩
+  toInt f := F0.toInt f.fl
+  feq a b := F0.feq a.fl b.fl
+  flt a b := F0.flt a.fl b.fl
+  fle a b := F0.fle a.fl b.fl
+  neg a := ⟨a.bits ^^^ 0x8000000000000000⟩        -- `fneg`: sign flip, also on NaNs
+  abs a := ⟨a.bits &&& 0x7fffffffffffffff⟩        -- `fabs`: sign clear, also on NaNs
+  sin := FB.un 0xfff8000000000000 F0.sin
+  cos := FB.un 0xfff8000000000000 F0.cos
+  tan := FB.un 0xfff8000000000000 F0.tan
+  asin := FB.un 0xfff8000000000000 F0.asin
+  acos := FB.un 0xfff8000000000000 F0.acos
+  atan := FB.un 0xfff8000000000000 F0.atan
+  exp := FB.un 0xfff8000000000000 F0.exp
+  ln := FB.un 0xfff8000000000000 F0.ln
+  log10 := FB.un 0xfff8000000000000 F0.log10
+  sqrt := FB.un c.invSqrt F0.sqrt
+  trunc := FB.un 0xfff8000000000000 F0.trunc
+  floor := FB.un 0xfff8000000000000 F0.floor
+  ceil := FB.un 0xfff8000000000000 F0.ceil
+  round := FB.un 0xfff8000000000000 F0.round
+  ofDec m k := ⟨(F0.ofDec m k).toBits⟩
+  pi := ⟨F0.pi.toBits⟩
+  e := ⟨F0.e.toBits⟩
+
+/-- f64 ↔ f32 conversions on bit patterns (NaN rule of the SSE `cvtsd2ss` / `cvtss2sd`:
+keep sign, quiet, keep the top payload bits), as in `Driver/C01.lean` -/
+def isNaN32 (b : Nat) : Bool := (b / 2 ^ 23) % 2 ^ 8 == 255 && b % 2 ^ 23 != 0
+
+def narrow (a : FB) : BitVec 32 :=
+  if a.isNaN then
+    let n := a.bits.toNat
+    BitVec.ofNat 32 ((n / 2 ^ 63) * 2 ^ 31 + 0x7fc00000 + ((n % 2 ^ 52) / 2 ^ 29) % 2 ^ 22)
+  else BitVec.ofNat 32 a.fl.toFloat32.toBits.toNat
+
+def widen (b : BitVec 32) : FB :=
+  if isNaN32 b.toNat then
+    let n := b.toNat
+    ⟨UInt64.ofNat ((n / 2 ^ 31) * 2 ^ 63 + 0x7ff8000000000000 + ((n % 2 ^ 23) % 2 ^ 22) * 2 ^ 29)⟩
+  else ⟨(Float32.ofBits (UInt32.ofNat b.toNat)).toFloat.toBits⟩
+
+instance : Reg.FloatOps FB where
+  toBits x := BitVec.ofNat 64 x.bits.toNat
+  ofBits b := ⟨UInt64.ofNat b.toNat⟩
+  narrowBits32 := narrow
+  widenBits32 := widen
 
 /-! ### `String::from_utf8_lossy` (std `Utf8Chunks`): every maximal ill-formed prefix
 becomes U+FFFD -/
@@ -94,7 +193,7 @@ def bMask : BitMask → CamVerif.BitMask.BitMask
 
 /-! ### The `Ops` instance -/
 
-abbrev Ex := Formula.Expr Float
+abbrev Ex := Formula.Expr FB
 
 def regErr : Reg.Err → Err
   | .device => .device
@@ -116,25 +215,25 @@ def rSign : Sign → Reg.Sign
   | .signed => .signed
   | .unsigned => .unsigned
 
-def formulaErr : Formula.Err → Res Err (EvalResult Float)
+def formulaErr : Formula.Err → Res Err (EvalResult FB)
   | .invalidNode => .err .invalidNode
   | .invalidData => .err .invalidData
   | .fuel => .err .outOfFuel
   | .nonAscii => .panic
 
-def evalFormula (p : Profile) (env : String → Option Ex) (e : Ex) : Res Err (EvalResult Float) :=
-  match Formula.evalX p env 64 e with
+def evalFormula (c : NanCfg) (p : Profile) (env : String → Option Ex) (e : Ex) : Res Err (EvalResult FB) :=
+  match @Formula.evalX FB (fbInst c) p env 64 e with
   | .ok (.int i) => .ok (.int i.toInt)
   | .ok (.float f) => .ok (.float f)
   | .err e => formulaErr e
   | .panic => .panic
 
-def ops : Ops Float Ex where
-  i2f i := (Int64.ofInt i).toFloat
-  f2i f := f.toInt64.toInt
-  fNonZero f := !(f == 0.0)
-  fMin := Float.ofBits 0xffefffffffffffff
-  fMax := Float.ofBits 0x7fefffffffffffff
+def ops (c : NanCfg) : Ops FB Ex where
+  i2f i := ⟨(Int64.ofInt i).toFloat.toBits⟩
+  f2i f := f.fl.toInt64.toInt
+  fNonZero f := !(f.fl == 0.0)
+  fMin := ⟨0xffefffffffffffff⟩
+  fMax := ⟨0x7fefffffffffffff⟩
   intFromSlice bs e s := mapRes (·.toInt) regErr (Reg.intFromSlice bs (rEndian e) (rSign s))
   bytesFromInt v n e s := mapRes id regErr (Reg.bytesFromInt (BitVec.ofInt 64 v) n (rEndian e) (rSign s))
   floatFromSlice bs e := mapRes id regErr (Reg.floatFromSlice bs (rEndian e))
@@ -151,13 +250,13 @@ def ops : Ops Float Ex where
     (CamVerif.BitMask.BitMask.max p (bMask m) (BitVec.ofNat 64 len) (rEndian e) (rSign s))
   exprOfInt i := .int (BitVec.ofInt 64 i)
   exprOfFloat f := .float f
-  eval := evalFormula
+  eval := evalFormula c
 
 /-! ### Parsing the graph description -/
 
 def pNat (s : String) : Option Nat := s.toNat?
 def pInt (s : String) : Option Int := s.toInt?
-def pFloat (s : String) : Option Float := (hexToNat s).map fun n => Float.ofBits (UInt64.ofNat n)
+def pFloat (s : String) : Option FB := (hexToNat s).map fun n => ⟨UInt64.ofNat n⟩
 def pOptNode (s : String) : Option (Option NodeId) := if s == "-" then some none else (pNat s).map some
 def pAM (s : String) : Option AccessMode :=
   if s == "RO" then some .ro else if s == "WO" then some .wo else if s == "RW" then some .rw else none
@@ -181,7 +280,7 @@ def pIon (s : String) : Option (ImmOrPNode Int) :=
   | 'n' :: r => (pNat (String.ofList r)).map .pnode
   | _ => none
 /-- `f<hex16>` | `n<id>` -/
-def pIonF (s : String) : Option (ImmOrPNode Float) :=
+def pIonF (s : String) : Option (ImmOrPNode FB) :=
   match s.toList with
   | 'f' :: r => (pFloat (String.ofList r)).map .imm
   | 'n' :: r => (pNat (String.ofList r)).map .pnode
@@ -256,7 +355,7 @@ def hexStr (s : String) : Option String := do
 
 def pFormula (s : String) : Option Ex := do
   let txt ← hexStr s
-  match (Formula.parse txt : Formula.R Ex) with
+  match (@Formula.parse FB (fbInst {}) txt : Formula.R Ex) with
   | .ok e => some e
   | _ => none
 
@@ -271,13 +370,13 @@ def pList {α} (s : String) (f : String → String → Option α) : Option (List
     let v ← f k v
     pure (k, v)
 
-def pNumLit (s : String) : Option (NumLit Float) :=
+def pNumLit (s : String) : Option (NumLit FB) :=
   match s.toList with
   | 'i' :: r => (pInt (String.ofList r)).map .int
   | 'f' :: r => (pFloat (String.ofList r)).map .float
   | _ => none
 
-def pFormulaic : List String → Option (Formulaic Float Ex × List String)
+def pFormulaic : List String → Option (Formulaic FB Ex × List String)
   | vars :: consts :: exprs :: rest => do
     let vars ← pList vars fun _ v => pNat v
     let consts ← pList consts fun _ v => pNumLit v
@@ -285,7 +384,7 @@ def pFormulaic : List String → Option (Formulaic Float Ex × List String)
     pure (⟨vars, consts, exprs⟩, rest)
   | _ => none
 
-def pNode (kind : String) (ts : List String) : Option (Node Float Ex) :=
+def pNode (kind : String) (ts : List String) : Option (Node FB Ex) :=
   match kind with
   | "Integer" => do
     let (b, ts) ← pBase ts
@@ -398,7 +497,7 @@ def pNode (kind : String) (ts : List String) : Option (Node Float Ex) :=
     | _ => none
   | _ => none
 
-def pReq : List String → Option (Req Float)
+def pReq : List String → Option (Req FB)
   | ["iv", n] => (pNat n).map .intValue
   | ["is", n, v] => do pure (.intSet (← pNat n) (← pInt v))
   | ["imin", n] => (pNat n).map .intMin
@@ -447,10 +546,9 @@ def errName : Err → String
   | .invalidBuffer => "InvalidBuffer"
   | .outOfFuel => "MODEL-OUT-OF-FUEL"
 
-def showFloat (f : Float) : String :=
-  if f.isNaN then "f:nan" else "f:" ++ natToHex 16 f.toBits.toNat
+def showFloat (f : FB) : String := "f:" ++ natToHex 16 f.bits.toNat
 
-def showVal : Val Float → String
+def showVal : Val FB → String
   | .unit => "ok"
   | .int i => s!"ok {i}"
   | .float f => "ok " ++ showFloat f
@@ -464,7 +562,7 @@ def showVal : Val Float → String
   | .optFloat none => "ok none"
   | .optFloat (some f) => "ok " ++ showFloat f
 
-def showRes : Res Err (Val Float) → String
+def showRes : Res Err (Val FB) → String
   | .ok v => showVal v
   | .err e => "err " ++ errName e
   | .panic => "panic"
@@ -475,30 +573,33 @@ def fnvAccess (h : UInt64) : Access → UInt64
   | .read a l ok => fnvByte (fnvNat (fnvInt (fnvByte h 0) a) l) (if ok then 1 else 0)
   | .write a d ok => fnvBytes (fnvByte (fnvNat (fnvInt (fnvByte h 1) a) d.length) (if ok then 1 else 0)) d
 
-def digest (st : St Float) : String :=
-  let hm := fnvBytes fnvInit st.dev.mem
+/-- final answer of a case: the whole device image and the log digest -/
+def digest (st : St FB) : String :=
   let hl := st.log.foldl fnvAccess fnvInit
-  s!"mem={natToHex 16 hm.toNat} log={st.log.length}:{natToHex 16 hl.toNat}"
+  s!"mem={bytesToHex st.dev.mem} log={st.log.length}:{natToHex 16 hl.toNat}"
 
 /-! ### State and loop -/
 
 structure DState where
   profile : Profile := Profile.dev
-  nodes : Array (Option (Node Float Ex)) := #[]
-  st : St Float := ⟨[], ⟨[], 0, 0⟩, []⟩
+  nan : NanCfg := {}
+  nodes : Array (Option (Node FB Ex)) := #[]
+  st : St FB := ⟨[], ⟨[], 0, 0⟩, []⟩
+  /-- running digest of the access log (so that every answer pins the log so far) -/
+  logHash : UInt64 := fnvInit
   dead : Bool := false
 
-def DState.ctx (d : DState) : Ctx Float Ex :=
-  { ops := ops, profile := d.profile, graph := fun n => (d.nodes[n]?).join }
+def DState.ctx (d : DState) : Ctx FB Ex :=
+  { ops := ops d.nan, profile := d.profile, graph := fun n => (d.nodes[n]?).join }
 
 def FUEL : Nat := 48
 
-def setNode (nodes : Array (Option (Node Float Ex))) (id : Nat) (nd : Node Float Ex) :
-    Array (Option (Node Float Ex)) :=
+def setNode (nodes : Array (Option (Node FB Ex))) (id : Nat) (nd : Node FB Ex) :
+    Array (Option (Node FB Ex)) :=
   let nodes := if id < nodes.size then nodes else nodes ++ Array.replicate (id + 1 - nodes.size) none
   nodes.set! id (some nd)
 
-def specSuffix (spec : Bool) (d : DState) (req : Req Float) : String :=
+def specSuffix (spec : Bool) (d : DState) (req : Req FB) : String :=
   if !spec then "" else
   match req with
   | .isReadable n => match CamVerif.GenApiSem.readableSpec d.ctx FUEL n d.st.s with
@@ -512,13 +613,13 @@ def specSuffix (spec : Bool) (d : DState) (req : Req Float) : String :=
 def handle (spec : Bool) (d : DState) : List String → DState × String
   | ["begin", p] =>
     match profileOf p with
-    | some p => ({ profile := p }, "ok")
+    | some p => ({ profile := p, nan := d.nan }, "ok")
     | none => (d, "bad-op")
   | ["slot", id, k, v] =>
     match pNat id with
     | some id =>
       if id != d.st.vs.length then (d, "bad-slot-order") else
-      let vd : Option (ValueData Float) :=
+      let vd : Option (ValueData FB) :=
         if k == "i" then (pInt v).map .int
         else if k == "f" then (pFloat v).map .float
         else if k == "s" then (hexToBytes v).map .str
@@ -543,9 +644,19 @@ def handle (spec : Bool) (d : DState) : List String → DState × String
       match exec d.ctx (FUEL + 1) req d.st with
       | (r, st') =>
         let dead := match r with | .panic => true | _ => false
-        ({ d with st := st', dead := dead }, showRes r ++ sfx)
+        let lh := (st'.log.drop d.st.log.length).foldl fnvAccess d.logHash
+        let mh := fnvBytes fnvInit st'.dev.mem
+        let pin := s!" L{st'.log.length}:{natToHex 8 (lh.toNat % 2 ^ 32)} M{natToHex 8 (mh.toNat % 2 ^ 32)}"
+        ({ d with st := st', dead := dead, logHash := lh }, showRes r ++ sfx ++ pin)
     | none => (d, "bad-op")
   | ["end"] => (d, digest d.st)
+  | ["nancfg", prefs, a, b, c, e, f, g] =>
+    match prefs.toList.map (· == 'L'), hexToNat a, hexToNat b, hexToNat c, hexToNat e, hexToNat f, hexToNat g with
+    | [p1, p2, p3, p4, p5], some a, some b, some c, some e, some f, some g =>
+      ({ d with nan := { lhsAdd := p1, lhsSub := p2, lhsMul := p3, lhsDiv := p4, lhsRem := p5,
+                         invAdd := UInt64.ofNat a, invSub := UInt64.ofNat b, invMul := UInt64.ofNat c,
+                         invDiv := UInt64.ofNat e, invRem := UInt64.ofNat f, invSqrt := UInt64.ofNat g } }, "ok")
+    | _, _, _, _, _, _, _ => (d, "bad-nancfg")
   | _ => (d, "bad-op")
 
 partial def loop (spec : Bool) (hin hout : IO.FS.Stream) (d : DState) : IO Unit := do
